@@ -91,6 +91,31 @@ func Harness_K9_WithType() {
 	vrtReach("K9/withtype/end")
 }
 
+// Harness_K9_WithCall (C10): validators and plan modifiers are configured as calls, optionally
+// qualified by an import path ("path/pkg.Name(args)"). Rendering qualifies the function name and
+// leaves the arguments alone, whatever they contain (dots in string or float literals included).
+// Assumption: the arguments contain none of "[]*" (the modifier scan of typAndMod is not call-aware).
+func Harness_K9_WithCall() {
+	name, args, qpath := vrtString(), vrtString(), vrtString()
+	qualified := vrtBool()
+	vrtAssume(vrtIdent(name) && name != "" && !strings.Contains(name, "."))
+	vrtAssume(vrtPath(qpath) && qpath != "")
+	vrtAssume(vrtPrintable(args) && !strings.Contains(args, "[") && !strings.Contains(args, "]") && !strings.Contains(args, "*"))
+	call := name + "(" + args + ")"
+	t := call
+	if qualified {
+		t = qpath + "." + call
+	}
+	i := NewImports(vrtPluginImports{}, nil)
+	got := i.WithType(t)
+	if qualified {
+		vrtAssert("C10/K9/qualified-call-keeps-its-arguments", got == vrtQual(qpath)+"."+call)
+	} else {
+		vrtAssert("C10/K9/unqualified-call-left-alone", got == t)
+	}
+	vrtReach("K9/withcall/end")
+}
+
 // Harness_K12_Write: for every list of messages (root or nested) write emits GenSchema / CopyFrom /
 // CopyTo exactly for the root ones, each once, and the shared code once.
 func Harness_K12_Write() {
